@@ -141,6 +141,9 @@ pub fn features(r: &Relation) -> Vec<String> {
                 if red.inputs().iter().any(|i| has_reduce(i)) {
                     out.insert("reduce.below-reduce".to_string());
                 }
+                if red.aggregate().iter().any(|a| matches!(a.aggregate(), Aggregate::CountDistinct | Aggregate::SumDistinct | Aggregate::MeanDistinct | Aggregate::VarDistinct | Aggregate::StdDistinct)) {
+                    out.insert("reduce.distinct-aggregate".to_string());
+                }
                 if red.group_by().is_empty() && red.aggregate().iter().any(|a| !matches!(a.aggregate(), Aggregate::Count | Aggregate::CountDistinct)) {
                     out.insert("reduce.ungrouped.null-on-empty-aggregate".to_string());
                 }
@@ -159,6 +162,12 @@ pub fn features(r: &Relation) -> Vec<String> {
                     JoinOperator::Cross => ("cross", None),
                 };
                 out.insert(format!("join.{kind}"));
+                fn has_reduce_below(r: &Relation) -> bool {
+                    matches!(r, Relation::Reduce(_)) || r.inputs().iter().any(|i| has_reduce_below(i))
+                }
+                if has_reduce_below(j.left()) || has_reduce_below(j.right()) {
+                    out.insert("join.over-reduce".to_string());
+                }
                 // joins of two relations over protected tables whose ON clause does not force the same privacy unit
                 // (the privacy-unit rewriting adds the unit equality, i.e. changes what the join returns), and outer
                 // joins that preserve a side without protected tables (its unmatched rows have no unit)
